@@ -1,216 +1,1 @@
-import SynthVerif.Src.Prelude
-import SynthVerif.Src.Deps
-import SynthVerif.Gen.Src.phase_accumulator
-import SynthVerif.Gen.Src.utils
-/-! GENERATED by tools/rs2lean.py from /repo/src/adsr.rs on every run.  Do not edit. -/
-set_option linter.unusedVariables false
-open F32 Rs
-namespace Src.adsr
-
-def TOT_NUM_ACCUM_BITS : Nat := 24
-
-def NUM_LUT_INDEX_BITS? : Option Nat := do
-  let t1 ← Src.utils.ilog_2 Gen.adsrLutSize
-  pure t1
-def NUM_LUT_INDEX_BITS : Nat := (NUM_LUT_INDEX_BITS?).getD default
-
-structure TimePeriod where
-  _0 : F32
-deriving Inhabited
-
-structure SustainLevel where
-  _0 : F32
-deriving Inhabited
-
-inductive Input where
-  | Attack (a0 : Src.adsr.TimePeriod)
-  | Decay (a0 : Src.adsr.TimePeriod)
-  | Sustain (a0 : Src.adsr.SustainLevel)
-  | Release (a0 : Src.adsr.TimePeriod)
-deriving Inhabited
-
-inductive State where
-  | AtRest
-  | Attack
-  | Decay
-  | Sustain
-  | Release
-deriving DecidableEq, Repr, Inhabited
-
-structure Adsr where
-  attack_time : Src.adsr.TimePeriod
-  decay_time : Src.adsr.TimePeriod
-  sustain_level : Src.adsr.SustainLevel
-  release_time : Src.adsr.TimePeriod
-  phase_accumulator : (Src.phase_accumulator.PhaseAccumulator Src.adsr.TOT_NUM_ACCUM_BITS Src.adsr.NUM_LUT_INDEX_BITS)
-  state : Src.adsr.State
-  value_when_gate_on_received : F32
-  value_when_gate_off_received : F32
-  value : F32
-deriving Inhabited
-
-def Adsr.value_fn (self : Src.adsr.Adsr) : Option F32 := do
-  return self.value
-
-def Adsr.set_input (self₀ : Src.adsr.Adsr) (input : Src.adsr.Input) : Option Src.adsr.Adsr := do
-  let mut self := self₀
-  match input with
-  | .Attack a =>
-    self := { self with attack_time := a }
-    return self
-  | .Decay d =>
-    self := { self with decay_time := d }
-    return self
-  | .Sustain s =>
-    self := { self with sustain_level := s }
-    return self
-  | .Release r =>
-    self := { self with release_time := r }
-    return self
-
-def Adsr.calc_value (self : Src.adsr.Adsr) : Option F32 := do
-  let mut coefficient : F32 := default
-  let mut sample : F32 := default
-  let mut offset : F32 := default
-  let t1 ← Src.phase_accumulator.PhaseAccumulator.index self.phase_accumulator
-  let lut_idx : Nat := t1
-  let t2 ← uadd Usize.bound lut_idx 1
-  let t3 ← usub Gen.adsrLutSize 1
-  let next_lut_idx : Nat := (min t2 t3)
-  match self.state with
-  | .Attack =>
-    let t4 ← tbl Gen.attackBits lut_idx
-    let y0 : F32 := t4
-    let t5 ← tbl Gen.attackBits next_lut_idx
-    let y1 : F32 := t5
-    coefficient := (F32.sub (lit 1) self.value_when_gate_on_received)
-    let t6 ← Src.phase_accumulator.PhaseAccumulator.fraction self.phase_accumulator
-    let t7 ← Src.utils.linear_interp y0 y1 t6
-    sample := t7
-    offset := self.value_when_gate_on_received
-  | .Decay =>
-    let t8 ← tbl Gen.decayBits lut_idx
-    let y0 : F32 := t8
-    let t9 ← tbl Gen.decayBits next_lut_idx
-    let y1 : F32 := t9
-    coefficient := (F32.sub (lit 1) self.sustain_level._0)
-    let t10 ← Src.phase_accumulator.PhaseAccumulator.fraction self.phase_accumulator
-    let t11 ← Src.utils.linear_interp y0 y1 t10
-    sample := t11
-    offset := self.sustain_level._0
-  | .Sustain =>
-    coefficient := (lit 1)
-    sample := self.sustain_level._0
-    offset := (lit 0)
-  | .Release =>
-    let t12 ← tbl Gen.decayBits lut_idx
-    let y0 : F32 := t12
-    let t13 ← tbl Gen.decayBits next_lut_idx
-    let y1 : F32 := t13
-    coefficient := self.value_when_gate_off_received
-    let t14 ← Src.phase_accumulator.PhaseAccumulator.fraction self.phase_accumulator
-    let t15 ← Src.utils.linear_interp y0 y1 t14
-    sample := t15
-    offset := (lit 0)
-  | .AtRest =>
-    coefficient := (lit 0)
-    sample := (lit 0)
-    offset := (lit 0)
-  return (F32.add (F32.mul coefficient sample) offset)
-
-def f32.from_TimePeriod (val : Src.adsr.TimePeriod) : Option F32 := do
-  return val._0
-
-def SustainLevel.from_f32 (val : F32) : Option Src.adsr.SustainLevel := do
-  return ({ _0 := (F32.fmin (F32.fmax val (lit 0)) (lit 1)) } : Src.adsr.SustainLevel)
-
-def f32.from_SustainLevel (val : Src.adsr.SustainLevel) : Option F32 := do
-  return val._0
-
-def MIN_TIME_PERIOD_SEC : F32 := (lit (1 / 1000))
-
-def MAX_TIME_PERIOD_SEC : F32 := (lit 20)
-
-def Adsr.tick (self₀ : Src.adsr.Adsr) : Option Src.adsr.Adsr := do
-  let mut self := self₀
-  if (((self.state == Src.adsr.State.Attack) || (self.state == Src.adsr.State.Decay)) || (self.state == Src.adsr.State.Release)) then
-    let v1 : F32 ← (do
-      match self.state with
-      | .Attack =>
-        pure self.attack_time._0
-      | .Decay =>
-        pure self.decay_time._0
-      | .Release =>
-        pure self.release_time._0
-      | .Sustain =>
-        pure Src.adsr.MIN_TIME_PERIOD_SEC
-      | .AtRest =>
-        pure Src.adsr.MIN_TIME_PERIOD_SEC
-      )
-    let period_of_this_phase : F32 := v1
-    let t2 ← Src.phase_accumulator.PhaseAccumulator.set_period self.phase_accumulator period_of_this_phase
-    self := { self with phase_accumulator := t2 }
-    let t3 ← Src.phase_accumulator.PhaseAccumulator.tick self.phase_accumulator
-    self := { self with phase_accumulator := t3 }
-    let (t4, t5) ← Src.phase_accumulator.PhaseAccumulator.rolled_over_fn self.phase_accumulator
-    self := { self with phase_accumulator := t4 }
-    if t5 then
-      let t6 ← Src.phase_accumulator.PhaseAccumulator.reset self.phase_accumulator
-      self := { self with phase_accumulator := t6 }
-      let v7 : Src.adsr.State ← (do
-        match self.state with
-        | .Attack =>
-          pure Src.adsr.State.Decay
-        | .Decay =>
-          pure Src.adsr.State.Sustain
-        | .Release =>
-          pure Src.adsr.State.AtRest
-        | .Sustain =>
-          pure Src.adsr.State.Sustain
-        | .AtRest =>
-          pure Src.adsr.State.AtRest
-        )
-      self := { self with state := v7 }
-  let t8 ← Src.adsr.Adsr.calc_value self
-  self := { self with value := t8 }
-  return self
-
-def Adsr.gate_on (self₀ : Src.adsr.Adsr) : Option Src.adsr.Adsr := do
-  let mut self := self₀
-  match self.state with
-  | .AtRest | .Decay | .Sustain | .Release =>
-    self := { self with value_when_gate_on_received := self.value }
-    let t1 ← Src.phase_accumulator.PhaseAccumulator.reset self.phase_accumulator
-    self := { self with phase_accumulator := t1 }
-    self := { self with state := Src.adsr.State.Attack }
-    return self
-  | .Attack =>
-    pure ()
-    return self
-
-def Adsr.gate_off (self₀ : Src.adsr.Adsr) : Option Src.adsr.Adsr := do
-  let mut self := self₀
-  match self.state with
-  | .Attack | .Decay | .Sustain =>
-    self := { self with value_when_gate_off_received := self.value }
-    let t1 ← Src.phase_accumulator.PhaseAccumulator.reset self.phase_accumulator
-    self := { self with phase_accumulator := t1 }
-    self := { self with state := Src.adsr.State.Release }
-    return self
-  | .Release | .AtRest =>
-    pure ()
-    return self
-
-def TimePeriod.from_f32 (p : F32) : Option Src.adsr.TimePeriod := do
-  return ({ _0 := (F32.fmin (F32.fmax p Src.adsr.MIN_TIME_PERIOD_SEC) Src.adsr.MAX_TIME_PERIOD_SEC) } : Src.adsr.TimePeriod)
-
-def Adsr.new (sample_rate_hz : F32) : Option Src.adsr.Adsr := do
-  let t1 ← Src.adsr.TimePeriod.from_f32 Src.adsr.MIN_TIME_PERIOD_SEC
-  let t2 ← Src.adsr.TimePeriod.from_f32 Src.adsr.MIN_TIME_PERIOD_SEC
-  let t3 ← Src.adsr.SustainLevel.from_f32 (lit 1)
-  let t4 ← Src.adsr.TimePeriod.from_f32 Src.adsr.MIN_TIME_PERIOD_SEC
-  let t5 ← Src.phase_accumulator.PhaseAccumulator.new (TOTAL_NUM_BITS := Src.adsr.TOT_NUM_ACCUM_BITS) (NUM_INDEX_BITS := Src.adsr.NUM_LUT_INDEX_BITS) sample_rate_hz
-  return ({ attack_time := t1, decay_time := t2, sustain_level := t3, release_time := t4, phase_accumulator := t5, state := Src.adsr.State.AtRest, value_when_gate_on_received := (lit 0), value_when_gate_off_received := (lit 0), value := (lit 0) } : Src.adsr.Adsr)
-
-
-end Src.adsr
+/-! GENERATED: translation of adsr.rs failed: Unsupported: external type PhaseAccumulator -/
